@@ -964,13 +964,21 @@ encode:
 
     if (rc == SSL_FULL)
     {
-        psFree(out->buf, ssl->bufferPool);
-        if ((out->buf = psMalloc(ssl->bufferPool, requiredLen)) == NULL)
+        unsigned char *newBuf;
+
+        /* 'out' aliases ssl->outbuf: allocate the replacement first and
+           keep the session pointing at a live buffer, also when the
+           allocation or the second encoding attempt fails. */
+        if ((newBuf = psMalloc(ssl->bufferPool, requiredLen)) == NULL)
         {
             return PS_MEM_FAIL;
         }
-        out->start = out->end = out->buf;
+        psFree(out->buf, ssl->bufferPool);
+        out->buf = out->start = out->end = newBuf;
         out->size = requiredLen;
+        ssl->outbuf = newBuf;
+        ssl->outsize = requiredLen;
+        ssl->outlen = 0;
         goto encode;
     }
     return PS_SUCCESS;
